@@ -624,6 +624,34 @@ def field_coverage(ctx, rule):
     encrules.hermes_payload(ctx, rule)
 
 
+def hermes_regular_part(ctx, rule):
+    """The regular part of a Hermes map is decoded (and validated) by decode_regular from the raw map as it was
+    parsed: decode_hermes only takes x_facebook_sources out of it. Any other mutable access to the raw map before
+    the hand-over (padding `sources`, editing `mappings`) would change what the index checks are made against."""
+    h = ctx.body("hermes::decode_hermes")
+    fn = h.path
+    touched = []
+    for b in [h] + list(ctx.facts.closures_of(fn)):
+        if b is not h:
+            continue
+        for bi, si, st, it in b.locations():
+            if it or st["k"] != "assign":
+                continue
+            pl = None
+            if st["place"]["l"] == 1 and st["place"]["p"]:
+                pl = st["place"]
+            rv = st["rv"]
+            if rv["k"] in ("ref", "rawptr") and rv.get("mut") and rv["place"]["l"] == 1:
+                pl = rv["place"]
+            if pl is not None:
+                names = [x.get("n") for x in pl["p"] if x.get("k") == "field"]
+                touched.append((names[0] if names else "<whole>", bi))
+    bad = sorted(set(n for n, _ in touched if n != "x_facebook_sources"))
+    ctx.check(not bad, rule, fn, "hermes:raw-untouched", "decode_hermes hands the raw map to decode_regular as parsed (it only takes x_facebook_sources out)", detail="also modified: %s" % bad)
+    calls = [q.shape(h.expr_of_call(t)) for bi, t in q.calls_to(h, "decoder::decode_regular")]
+    ctx.check(calls == ["decoder::decode_regular(arg1)"], rule, fn, "hermes:regular-decoder", "the regular part is decoded by decode_regular from that raw map", detail=str(calls))
+
+
 def key_names(ctx, rule):
     """C02.R5: JSON key names and their binding to fields (from the derived impls)."""
     from rules import encrules
